@@ -131,7 +131,7 @@ func c18Exec(run *ev.Run, c ev.Case) {
 	for step := 0; step < h.Steps; step++ {
 		kinds := []string{"dial-ok", "dial-bad", "open-ok", "open-wrongpw", "open-nosuite", "open-garbage", "open-unimplemented", "sl-ok", "sl-busy-ok", "sl-lost-ok", "sl-cc", "sl-ctx-done", "sl-any", "sl-any", "sl-stray-ok", "dial-odd-timeout", "sl-busy-giveup", "open-cancelled-late"}
 		if len(conns) > 0 {
-			kinds = append(kinds, "conn-close")
+			kinds = append(kinds, "conn-close", "udp-session-lifecycle")
 		}
 		if sess != nil {
 			kinds = []string{"cmd-ok", "cmd-ok", "cmd-cc", "cmd-busy-ok", "cmd-garbage-ok", "cmd-trunc", "cmd-lost", "cmd-serfail", "cmd-nobody-ok", "close-ok", "close-fail", "sl-ok", "dial-ok", "dial-bad", "cmd-ctx-done", "sl-cc", "cmd-any", "cmd-any", "cmd-any", "sl-any", "sl-stray-ok", "cmd-stray-ok", "cmd-busy-giveup", "dial-odd-timeout", "cmd-busy-ok-at-wrap"}
@@ -294,6 +294,36 @@ func c18Exec(run *ev.Run, c ev.Case) {
 				} else {
 					model.add("bmc_connections_open", "version=2.0", 1)
 				}
+			case "udp-session-lifecycle":
+				// a session over a dialled connection (the production transport): opened, closed - the BMC
+				// refusing the Close Session in two cases of three - and then the connection itself closed
+				i := r.Intn(len(conns))
+				cb := conns[i].srv.BMC
+				closeCode := []byte{0x00, 0x87, 0xd4}[r.Intn(3)]
+				cb.Handler = refbmc.Fixed(6, 0x3c, closeCode, nil)
+				conns[i].st.SetTimeout(500 * time.Millisecond) // whatever it was dialled with
+				octx, ocancel := bg(10 * time.Second)
+				us, oerr := conns[i].st.NewV2Session(octx, &bmc.V2SessionOpts{SessionOpts: bmc.SessionOpts{Username: cfg.Username, Password: cfg.Password, MaxPrivilegeLevel: ipmi.PrivilegeLevelAdministrator}, CipherSuites: []ipmi.CipherSuite{libSuite(su)}})
+				model.add("bmc_session_open_attempts_total", "", 1)
+				if oerr != nil {
+					ocancel()
+					model.add("bmc_session_open_failures_total", "", 1)
+					run.Inconclusive("C18: session over loopback UDP could not be opened: " + oerr.Error())
+					break
+				}
+				model.add("bmc_sessions_open", "", 1)
+				cerr := us.Close(octx)
+				ocancel()
+				model.add("bmc_command_attempts_total", "command=Close Session", 1)
+				model.add("bmc_command_responses_total", lbl(ipmi.CompletionCode(closeCode)), 1)
+				if cerr != nil {
+					model.add("bmc_command_failures_total", "command=Close Session", 0) // Close goes through closeSession, which does not count a refusal as a command failure
+				}
+				model.add("bmc_sessions_open", "", -1)
+				conns[i].st.Close()
+				conns[i].srv.Close()
+				conns = append(conns[:i], conns[i+1:]...)
+				model.add("bmc_connections_open", "version=2.0", -1)
 			case "conn-close":
 				i := r.Intn(len(conns))
 				conns[i].st.Close()
